@@ -207,6 +207,7 @@ func c07Aggregator(t *testing.T, s *sim.Scn, o *sim.Outcome) {
 		return false
 	}
 	crashed := false
+	killed := map[int]bool{} // incarnations that ended by process death (their in-memory marks were never saved)
 	after := func(i int, what string) bool {
 		if oracle, msg := l.Scan(); oracle != "" {
 			// submission soundness is C06's subject; a failure here would make the ledger meaningless
@@ -227,12 +228,14 @@ func c07Aggregator(t *testing.T, s *sim.Scn, o *sim.Outcome) {
 		}
 		op2 := op
 		op2.S = ""
+		epoch := n.Fence.Epoch()
 		f, err := r.exec(op2, k)
 		if op.K == "stop" {
 			io.crashes++
 		}
 		if f || !n.Alive {
 			if f {
+				killed[epoch] = true
 				crashed = true
 				io.crashes++
 				o.Count("crashes", 1)
@@ -301,6 +304,25 @@ func c07Aggregator(t *testing.T, s *sim.Scn, o *sim.Outcome) {
 		class := "no-crash"
 		if crashed {
 			class = "after-crash"
+			// the recorded finding: a part of the first unreported block was only ever accepted by incarnations that
+			// died (its mark lived in memory only). If every part was (also) accepted by an incarnation that stopped
+			// in an orderly way - which saves the marks - or by the running one, the marks cannot have been lost that way.
+			onlyKilled := func(eps map[int]bool) bool {
+				for e := range eps {
+					if !killed[e] {
+						return false
+					}
+				}
+				return true
+			}
+			b := got + 1
+			lost := onlyKilled(l.AccHEpochs[b])
+			if empty, err := l.BlockEmpty(b); err == nil && !empty && onlyKilled(l.AccDEpochs[b]) {
+				lost = true
+			}
+			if !lost {
+				class = "after-crash/marks-had-been-saved"
+			}
 		}
 		o.Fail("C07/da-included-not-reached", "C07/da-included-not-reached/aggregator/"+class, len(s.Ops),
 			fmt.Sprintf("every header and data up to height %d was accepted by the DA layer and acknowledged, %d rounds of produce/submit/include passed, but the DA-included height is %d", h0, budget, got),
